@@ -1,0 +1,76 @@
+// This Source Code Form is subject to the terms of the Mozilla Public
+// License, v. 2.0. If a copy of the MPL was not distributed with this
+// file, You can obtain one at http://mozilla.org/MPL/2.0/.
+
+//! Verification hooks (compiled only with `--cfg plonk_verif`).
+//!
+//! Thin public wrappers over crate-private kernels, taking and returning plain
+//! data. They add no logic of their own and are absent from every normal
+//! build.
+
+#![allow(missing_docs)]
+
+use alloc::vec::Vec;
+
+use dusk_bls12_381::BlsScalar;
+
+use crate::fft::{EvaluationDomain, Evaluations, Polynomial};
+use crate::proof_system::widget;
+
+fn pe(domain: EvaluationDomain, evals: Vec<BlsScalar>) -> (Polynomial, Evaluations) {
+    (
+        Polynomial::zero(),
+        Evaluations::from_vec_and_domain(evals, domain),
+    )
+}
+
+/// The five gate-family quotient contributions of ONE row, computed by the
+/// real widget `compute_quotient_i` functions on 1-point keys.
+///
+/// `sel`: `q_m q_l q_r q_o q_f q_c q_arith q_range q_logic q_fixed q_variable`;
+/// `ch`: range, logic, fixed-base, variable-base separation challenges;
+/// `w`: `a b c d a_next b_next d_next`.
+/// Returns `[arithmetic, range, logic, fixed_base, variable_base]`.
+pub fn widget_rows(
+    sel: &[BlsScalar; 11],
+    ch: &[BlsScalar; 4],
+    w: &[BlsScalar; 7],
+) -> [BlsScalar; 5] {
+    let dom = EvaluationDomain::new(1).expect("domain of size 1");
+    let one = |i: usize| pe(dom, alloc::vec![sel[i]]);
+
+    let arithmetic = widget::arithmetic::ProverKey {
+        q_m: one(0),
+        q_l: one(1),
+        q_r: one(2),
+        q_o: one(3),
+        q_f: one(4),
+        q_c: one(5),
+        q_arith: one(6),
+    };
+    let range = widget::range::ProverKey { q_range: one(7) };
+    let logic = widget::logic::ProverKey {
+        q_c: one(5),
+        q_logic: one(8),
+    };
+    let fixed = widget::ecc::scalar_mul::fixed_base::ProverKey {
+        q_l: one(1),
+        q_r: one(2),
+        q_c: one(5),
+        q_fixed_group_add: one(9),
+    };
+    let variable = widget::ecc::curve_addition::ProverKey {
+        q_variable_group_add: one(10),
+    };
+
+    let (a, b, c, d, a_w, b_w, d_w) =
+        (&w[0], &w[1], &w[2], &w[3], &w[4], &w[5], &w[6]);
+
+    [
+        arithmetic.compute_quotient_i(0, a, b, c, d),
+        range.compute_quotient_i(0, &ch[0], a, b, c, d, d_w),
+        logic.compute_quotient_i(0, &ch[1], a, a_w, b, b_w, c, d, d_w),
+        fixed.compute_quotient_i(0, &ch[2], a, a_w, b, b_w, c, d, d_w),
+        variable.compute_quotient_i(0, &ch[3], a, a_w, b, b_w, c, d, d_w),
+    ]
+}
